@@ -11,13 +11,13 @@ RULE = ('case = (exception kind) x (source mode legal for the configuration and 
         'SCTLR.{V,VE,TE,EE} x SCR.{NS,EA,IRQ,FIQ,AW,FW} x HCR.{TGE,IMO,FMO,AMO} x HSCTLR.{TE,EE} x VBAR/MVBAR/HVBAR x PC '
         'in {0, mid, top of the address space} x configuration in {no extensions, Security, Security+Virtualization, and two with the IMPLEMENTATION DEFINED reset / VE interrupt vectors of the configuration file moved}; all '
         'factors drawn independently at random (every pair of factor values occurs many times); the full post-state is '
-        'compared with the reference entry. source state ThumbEE (J = T = 1) for a fifth of the Thumb-state direct entries; Hyp traps taken from inside a stepped WFI/WFE (HCR.TWI/TWE); non-trivial = always (an entry changes mode/SPSR/LR/PC); distinct = (kind, '
+        'compared with the reference entry. source state ThumbEE (J = T = 1) for a fifth of the Thumb-state direct entries; Hyp traps taken from inside a stepped WFI/WFE (HCR.TWI/TWE); UNDEFINED and SMC entries also from stepped 16- and 32-bit Thumb encodings (UDF, UDF.W, SMC in every mode); non-trivial = always (an entry changes mode/SPSR/LR/PC); distinct = (kind, '
         'route taken, source mode, T, configuration)')
 ASSUMPTIONS = ['vf/ref/model.py transcribes TakeUndefInstrException ... TakePhysicalFIQException / EnterMonitorMode / '
                'EnterHypMode / TakeReset; HSR contents are UNKNOWN for the routed cases and not compared',
                'external / asynchronous aborts cannot be generated (mock hooks return False), so their routing is not exercised']
 CFGS = ['v6-pmsa', 'v6-pmsa-sec', 'v7-vmsa-sec', 'v7-vmsa-virt', 'v5-pmsa', 'v6-pmsa-sec-impdef', 'v7-vmsa-virt-impdef']
-KINDS = ['undef', 'svc', 'smc', 'dabort', 'irq', 'fiq', 'hyptrap', 'reset', 'svc-insn', 'udf-insn', 'hyptrap-insn']
+KINDS = ['undef', 'svc', 'smc', 'dabort', 'irq', 'fiq', 'hyptrap', 'reset', 'svc-insn', 'udf-insn', 'hyptrap-insn', 'smc-insn']
 
 
 def plan(tier, seed):
@@ -109,7 +109,7 @@ def run_shard(spec):
         ctx = ls.ctx((cfgname, 'off'))
         cfg = ctx.cfg
         kind = rng.choice(KINDS)
-        if kind == 'smc' and not cfg['have_security_ext']:
+        if kind in ('smc', 'smc-insn') and not cfg['have_security_ext']:
             continue
         if kind in ('hyptrap', 'hyptrap-insn') and not cfg['have_virt_ext']:
             continue
@@ -126,7 +126,14 @@ def run_shard(spec):
             word, ikind = (0xDF00 | rng.getrandbits(8), 't16') if thumb else (0xEF000000 | rng.getrandbits(24), 'arm')
             itpos = 'out'
         elif kind == 'udf-insn':
-            word, ikind = (0xDE00 | rng.getrandbits(8), 't16') if thumb else (0xE7F000F0, 'arm')
+            word, ikind = (0xDE00 | rng.getrandbits(8), 't16') if thumb else (0xE7F000F0 | (rng.getrandbits(12) << 8) | rng.getrandbits(4), 'arm')
+            if thumb and rng.random() < 0.5:
+                # a 32-bit Thumb encoding that is UNDEFINED: UDF.W, or a word of the permanently undefined space
+                word, ikind = (0xF7F0A000 | (rng.getrandbits(4) << 16) | rng.getrandbits(12), 't32')
+            itpos = 'out'
+        elif kind == 'smc-insn':
+            # SMC executed: Secure Monitor Call from a privileged mode, UNDEFINED from User mode (32-bit encoding in Thumb)
+            word, ikind = (0xF7F08000 | (rng.getrandbits(4) << 16), 't32') if thumb else (0xE1600070 | rng.getrandbits(4), 'arm')
             itpos = 'out'
         elif kind == 'hyptrap-insn':
             # a Hyp trap taken from INSIDE an executing instruction (WFI with HCR.TWI, WFE with HCR.TWE and no event pending)
